@@ -62,7 +62,20 @@ def federation(a0: int, a1: int, a2: int, perm: int, filt: bool) -> bool:
 
 
 def run_federation(masks, perm, filt):
-    """version m of node 0 is held by the members whose bit is set in masks[m]; node 1 (single version) by member 0 and 2"""
+    """version m of node 0 is held by the members whose bit is set in masks[m]; node 1 (single version) by member 0 and 2.
+    Member 2 is a FileSystemSource (in-memory file system) in every second wiring; in every third the Environment is built over the still EMPTY
+    composite (next to an empty store) and the members are attached afterwards."""
+    from props import fakefs
+    from stix2.datastore import filesystem as FSM
+    ffs = fakefs.FakeFS()
+    saved = fakefs.install(FSM, ffs)
+    try:
+        return _run_federation(masks, perm, filt, ffs, FSM)
+    finally:
+        FSM.os, FSM.io = saved
+
+
+def _run_federation(masks, perm, filt, ffs, FSM):
     members = [[], [], []]
     for m, mask in enumerate(masks):
         for j in range(3):
@@ -76,7 +89,14 @@ def run_federation(masks, perm, filt):
     members[1].append(sco)
     members[2].append(sco)
     srcs = [MemorySource(objs) if objs else MemorySource() for objs in members]
+    if perm % 2 == 1:
+        ffs.makedirs("/fed")
+        sink = FSM.FileSystemSink("/fed")
+        for o in members[2]:
+            sink.add(o)
+        srcs[2] = FSM.FileSystemSource("/fed")
     comp = CompositeDataSource()
+    early_env = Environment(store=MemoryStore(), source=comp) if perm % 3 == 2 else None        # built while the composite has no members
     if perm < 6:
         comp.add_data_sources([srcs[j] for j in PERMS[perm]])
     else:
@@ -84,7 +104,7 @@ def run_federation(masks, perm, filt):
         inner = CompositeDataSource()
         inner.add_data_sources([[srcs[0], srcs[1]], [srcs[2]], [srcs[1], srcs[2], srcs[0]]][perm - 6])
         comp.add_data_sources([inner] + [[srcs[2]], [srcs[0], srcs[1]], []][perm - 6])
-    env = Environment(source=comp)
+    env = early_env if early_env is not None else Environment(source=comp)
     f = Filter("name", "!=", "v2")
     if filt:
         if perm == 8:
